@@ -20,7 +20,8 @@ MANIFEST = dict(
     text="Coq theorem threats_sound over the bit-level models (transcriptions of ai.CountThreats, MovePreallocated, GameOver/WinDetails): for "
          "every position satisfying C02's invariant at ply >= 2, if the placement-or-slide count of the side to move is positive (and the mover "
          "has a piece left) there is a move that the move model accepts and after which the end-of-game model reports game over by road, won by "
-         "the mover; proved via: every set bit of a group's placement map joins edge-touching connected parts (pmap_sound), every set bit of its "
+         "the mover (C19_threats_sound_live: the piece hypothesis follows from the game not being over; C19_threats_sound_game: every undecided "
+         "position of a game of at least two plies replayed from tak.New with at most 64 pieces, no hypothesis about the position); proved via: every set bit of a group's placement map joins edge-touching connected parts (pmap_sound), every set bit of its "
          "slide map has a neighbouring free flat whose removal keeps the parts connected (tmap_sound), the one-piece one-step slide branch of "
          "the move model (mv_slide1), and C02's flood-fill/road theorems. The four counts are compared, model vs implementation, on every "
          "generated position; whenever the mover's counts are positive a one-ply search with the implementation and, independently, with a "
